@@ -409,6 +409,9 @@ func (sc scenario) coqAreq(b built) string {
 	kind := map[string]string{"none": "BNone", "bytes": "BKnown", "string": "BKnown", "reader": "BStream", "getbody": "BStream", "marshal": "BMarshal"}[sc.BodyKind]
 	body := sc.bodyBytes()
 	bodyCoq := fmt.Sprintf("(gen_body %d%%N %d%%N)", sc.BodySeed, sc.BodyLen)
+	if sc.BodyLen > 600 {
+		bodyCoq = fmt.Sprintf("(long_body %d%%N)", sc.BodyLen) // the model needs only the length of a long body
+	}
 	if sc.BodyKind == "marshal" {
 		bodyCoq = hk.CoqBytes(body)
 	}
@@ -606,7 +609,7 @@ func runReqCell(r *hk.Run, o *origin.Origin, sc scenario) {
 		}
 	}
 	coq := fmt.Sprintf("ReqCase %d %s %s", sc.Proto, sc.coqAreq(b), obsCoq)
-	if len(coq) > 9000 {
+	if len(coq) > 9000 || sc.BodyLen > 300000 {
 		r.Count("req.model-skipped.long")
 		coq = ""
 	}
